@@ -139,3 +139,11 @@
   (=> (and (not (= (band mask 4) 0)) (not (= newstate 8)))
       (and (tasks.present obs) (= (tasks.state obs) (isome 4)) (= (tasks.counter obs) (isome cur))
            (or (<= (ival (tasks.expires_at obs)) tobs) (<= (ival (tasks.timeout obs)) tobs)))))
+
+; ---- C05/C08: an unclaimed task (init or enqueued) is finished as "completed" only in the transaction in
+; which its root promise leaves pending, or -- for a notification -- by the dispatcher after its hand-off attempt.
+; (A task that is completed in any other way is never delivered: a lost wake-up.)
+(define-fun xguar.C08.unclaimed ((t0 Row.tasks) (t1 Row.tasks) (p0 Row.promises) (p1 Row.promises)) Bool
+  (=> (and (tasks.present t0) (or (= (tasks.state t0) (isome 1)) (= (tasks.state t0) (isome 2))) (= (tasks.state t1) (isome 8)))
+      (or (and (p.pending p0) (not (p.pending p1)))
+          (= (unjson.message.Mesg.0 (data (tasks.mesg t0))) lit.notify))))
